@@ -9,6 +9,7 @@ Each executed (state, op) is handed to the oracles selected by the calling check
 """
 import collections
 import itertools
+import signal
 
 from . import probes
 from .chartgen import build_api, build_yaml, build_api_rebuilt, build_api_moved, Tree, HIST
@@ -23,6 +24,31 @@ class Exec:
     __slots__ = ('hist', 'op', 'conf_before', 'snaps_before', 'outcome', 'step', 'log', 'gseen',
                  'conf_after', 'final_after', 'exc', 'it', 'drain', 'ctx_before', 'ctx_after',
                  'leftovers', 'log_after_drain', 'mutated')
+
+
+HANG_S = 30.0      # one execute_once call on these small charts takes milliseconds
+
+
+class HangError(Exception):
+    pass
+
+
+def _on_alarm(signum, frame):
+    raise HangError('execute_once did not return within %.0f s (the step never terminates)' % HANG_S)
+
+
+def guarded_execute_once(it):
+    """execute_once under a wall-clock watchdog: code under test that loops for ever must become a reported
+    crash, not a check that never ends"""
+    try:
+        signal.signal(signal.SIGALRM, _on_alarm)
+        signal.setitimer(signal.ITIMER_REAL, HANG_S)
+    except ValueError:          # not in the main thread: no watchdog
+        return it.execute_once()
+    try:
+        return it.execute_once()
+    finally:
+        signal.setitimer(signal.ITIMER_REAL, 0)
 
 
 class Runner:
@@ -88,7 +114,7 @@ class Runner:
         elif op[0] == 'U':
             it.queue('zz_unhandled')
         try:
-            step = it.execute_once()
+            step = guarded_execute_once(it)
         except (NonDeterminismError, ConflictingTransitionsError) as e:
             return type(e).__name__, None, e
         finally:
@@ -101,7 +127,7 @@ class Runner:
         self.leftovers = []
         if drain:
             while len(self.leftovers) < 64:
-                d = it.execute_once()
+                d = guarded_execute_once(it)
                 if d is None:
                     break
                 self.leftovers.append(d)
@@ -110,10 +136,10 @@ class Runner:
     def fresh(self, hist):
         it = self.new_interpreter()
         self.kept = []
-        first = it.execute_once()
+        first = guarded_execute_once(it)
         if first is not None:
             self.kept.append((first, _step_sig(first)))
-        while it.execute_once() is not None:
+        while guarded_execute_once(it) is not None:
             pass
         for op in hist:
             self.apply(it, op)
@@ -136,7 +162,7 @@ class Runner:
         if ex.exc is None:
             try:
                 while len(ex.leftovers) < 64:
-                    d = it.execute_once()
+                    d = guarded_execute_once(it)
                     if d is None:
                         break
                     ex.leftovers.append(d)
@@ -156,7 +182,7 @@ class Runner:
             # left in the queue as it must be, is consumed by a transition-less step
             probes.reset()
             try:
-                d = it.execute_once()
+                d = guarded_execute_once(it)
                 ex.drain = ('step', d.event.name if d is not None and d.event else None,
                             len(d.transitions) if d is not None else 0) if d is not None else ('none',)
             except Exception as e:
@@ -239,7 +265,7 @@ def explore(spec, k, oracles, builder='api', max_states=100000, k_by_arity=None,
     ex.conf_before, ex.snaps_before = frozenset(), {}
     ex.ctx_before = _plain_ctx(it.context)
     try:
-        ex.step = it.execute_once()
+        ex.step = guarded_execute_once(it)
         ex.outcome, ex.exc = 'step', None
     except Exception as e:
         ex.step, ex.outcome, ex.exc = None, 'crash:' + type(e).__name__, e
@@ -247,7 +273,7 @@ def explore(spec, k, oracles, builder='api', max_states=100000, k_by_arity=None,
     ex.leftovers = []
     if ex.exc is None:
         while len(ex.leftovers) < 64:
-            d = it.execute_once()
+            d = guarded_execute_once(it)
             if d is None:
                 break
             ex.leftovers.append(d)
